@@ -20,6 +20,9 @@ Three legs:
     configuration A, reconfigure to B and load another one, analyse and render both (also template_from_str and
     Expression), go back to A, analyse again: soundness of every report, and the report of a stored template
     must not change when the environment is reconfigured.
+ 2d. the same programs with one loop made recursive and its body re-entered once through loop(...) in a random
+    spelling (emit, value position, alias, assignment) from a random place (body, nested loop, macro declared in
+    the body, call block, with) - engine only.
  3. proof audit of Props/C18.v (undeclared_sound for every outcome, nested mode, ...).
 Renders run with debug info off; the lookups of the error-reporting path with debug info on are the
 known finding `debug-info-lookups`, which is re-observed and kept apart from everything else.
@@ -227,6 +230,33 @@ CALL_HOLES = [
     ("do", "{% do E %}"), ("callblock-call", "{% call E %}b{% endcall %}"), ("callblock-call-with-params", "{% call(V) E %}b{% endcall %}"),
     ("do-after-set", "{% set V = f %}{% do E %}"),
 ]
+# recursive loops: the loop body (which reads the outer binding V) is re-entered through loop(...) in every
+# spelling, from every place, below every kind of outer binding
+LOOP_OUTER = [
+    ("set", "{% set V = 1 %}@"), ("with", "{% with V = 1 %}@{% endwith %}"), ("for", "{% for V in [1] %}@{% endfor %}"),
+    ("macro-arg", "{% macro o(V) %}@{% endmacro %}{{ o(1) }}"), ("set-block", "{% set V %}a{% endset %}@"),
+    ("callblock-param", "{% macro o() %}{{ caller(1) }}{% endmacro %}{% call(V) o() %}@{% endcall %}"),
+    ("macro-default", "{% macro o(V=2) %}@{% endmacro %}{{ o() }}"),
+]
+LOOP_PLACE = [
+    ("body", "#"), ("nested-loop", "{% for z in [1] %}#{% endfor %}"), ("nested-with", "{% with q = 1 %}#{% endwith %}"),
+    ("macro-in-loop", "{% macro i() %}#{% endmacro %}{{ i() }}"), ("callblock-body", "{% call w() %}#{% endcall %}"),
+    ("block", "{% block b %}#{% endblock %}"), ("set-block-body", "{% set z %}#{% endset %}{{ z }}"),
+    ("macro-in-macro", "{% macro i() %}{% macro j() %}#{% endmacro %}{{ j() }}{% endmacro %}{{ i() }}"),
+]
+LOOP_SPELL = [
+    ("emit", "{{ loop([5]) }}"), ("value", "{{ loop([5])|string }}"), ("alias", "{{ lp([5]) }}"), ("namespace", "{{ ns.f([5]) }}"),
+    ("set-then-emit", "{% set r = loop([5]) %}{{ r }}"), ("alias-value", "{{ lp([5])|string }}"), ("list-item", "{{ [lp][0]([5]) }}"),
+    ("do", "{% do loop([5]) %}"),
+]
+LOOP_HOLES = []
+for ol, ot in LOOP_OUTER:
+    for pl, pt in LOOP_PLACE:
+        for sl, st_ in LOOP_SPELL:
+            core = ("{% macro w() %}{{ caller() }}{% endmacro %}{% for y in [1] recursive %}[{{ E }}]{% set lp = loop %}{% set ns = namespace(f=loop) %}"
+                    "{% if loop.depth0 == 0 %}" + pt.replace("#", st_) + "{% endif %}{% endfor %}")
+            LOOP_HOLES.append(("recursive-loop:%s/%s/%s" % (ol, pl, sl), ot.replace("@", core)))
+LOOP_FORMS = {"var", "attr", "filter-arg", "call-arg"}
 NAMES_FULL = ["x", "loop"]
 NAMES_SPECIAL = ["self", "super", "caller", "varargs", "kwargs", "range", "namespace"]
 SPECIAL_FORMS = {"var", "attr", "item-base", "slice-base", "call-callee", "call-callee-noargs", "method-base", "filter-arg", "call-arg", "method-chain"}
@@ -257,6 +287,13 @@ def construct_cases(thorough):
                 for cl, extra in ctxs(v):
                     c = dict(BASE_CTX); c.update(extra)
                     out.append((hl, fl, v, cl, inst(ht, fs, v), c))
+    for hl, ht in LOOP_HOLES:
+        for fl, fs in FORMS:
+            if fl not in LOOP_FORMS or (not thorough and fl not in ("var", "filter-arg")):
+                continue
+            for cl, extra in ctxs("x")[:2]:
+                c = dict(BASE_CTX); c.update(extra)
+                out.append((hl, fl, "x", cl, inst(ht, fs, "x"), c))
     seen, ded = set(), []
     for c in out:                                   # positions without an expression give the same template for every form
         k = (c[4], json.dumps(c[5], sort_keys=True))
@@ -469,6 +506,60 @@ def extension_mutation(body, rng):
         tgt = rng.choice(["n", "s", "undef2", "ns"])
         body = body[:i] + [("setattr", tgt, rng.choice(["a", "b"]), ("var", rng.choice(["m", "undef0"])) if rng.chance(1, 2) else ("int", 1))] + body[i:]
     return body
+
+
+def recursion_mutation(body, rng):
+    """Engine-side only: makes one loop of the program recursive and re-enters its body once through loop(...),
+    spelled and placed at random (directly, in a nested loop, in a macro declared in the body, in a call block)."""
+    found = []
+
+    def walk(b, path):
+        for i, st in enumerate(b):
+            if st[0] == "for":
+                found.append(path + [i])
+                walk(st[4], path + [i, 4])
+            elif st[0] in ("with", "filterblock", "autoescape", "setblock"):
+                walk(st[2], path + [i, 2])
+            elif st[0] == "if":
+                for k, (c, x) in enumerate(st[1]):
+                    walk(x, path + [i, 1, k, 1])
+    walk(body, [])
+    if not found:
+        return None
+    path = rng.choice(found)
+    arg = ("list", [("int", 5)]) if rng.chance(1, 2) else ("list", [("var", rng.choice(["n", "m"]))])
+    spell = rng.below(5)
+    pre = []
+    if spell == 0: call = ("emit", ("call", "loop", [arg], []))
+    elif spell == 1: call = ("emit", ("filter", "string", ("call", "loop", [arg], []), []))
+    elif spell == 2:
+        pre = [("set", "lp", ("var", "loop"))]; call = ("emit", ("call", "lp", [arg], []))
+    elif spell == 3:
+        pre = [("set", "lp", ("var", "loop"))]; call = ("emit", ("filter", "string", ("call", "lp", [arg], []), []))
+    else: call = ("set", "rr", ("call", "loop", [arg], []))
+    place = rng.below(5)
+    if place == 0: inner = [call]
+    elif place == 1: inner = [("for", "zz", ("list", [("int", 1)]), None, [call], None, False)]
+    elif place == 2: inner = [("macro", "mi", [], [], [call]), ("emit", ("call", "mi", [], []))]
+    elif place == 3: inner = [("callblock", "wr", [], [call])]
+    else: inner = [("with", [("qq", ("int", 1))], [call])]
+    guard = ("if", [(("cmp", ("attr", ("var", "loop"), "depth0"), [("==", ("int", 0))]), inner)], None)
+
+    def rebuild(b, path):
+        i = path[0]
+        st = b[i]
+        if len(path) == 1:
+            new = ("for", st[1], st[2], st[3], pre + list(st[4]) + [guard], st[5], True)
+        else:
+            k = path[1]
+            if st[0] == "if":
+                arms = list(st[1]); c, x = arms[path[2]]; arms[path[2]] = (c, rebuild(x, path[4:]))
+                new = ("if", arms, st[2])
+            else:
+                lst = list(st); lst[k] = rebuild(st[k], path[2:]); new = tuple(lst)
+        return b[:i] + [new] + b[i + 1:]
+    wr = ("macro", "wr", [], [], [("emit", ("call", "caller", [], []))])
+    return [wr] + rebuild(list(body), path)
 
 
 def has_loop_control(st):
@@ -807,7 +898,7 @@ def main():
             continue                                     # not specific to the special name
         classes[(hl, fl, vn)] = v
     chk.cov["construct_search"] = {"templates": len(cc), "compiled": loaded, "expressions": len(ereqs),
-                                   "holes": len(HOLES) + len(CALL_HOLES), "forms": len(FORMS), "failing_pairs": len(fails), "failing_classes": len(classes)}
+                                   "holes": len(HOLES) + len(CALL_HOLES) + len(LOOP_HOLES), "recursive_loop_positions": len(LOOP_HOLES), "forms": len(FORMS), "failing_pairs": len(fails), "failing_classes": len(classes)}
     # ---------------- known finding: lookups of the error-reporting path ----------------------------
     kf_t = "{% if f %}{% set q = 1 %}{% endif %}{{ 1 // 0 }}"
     kres = run_c18([req_t(kf_t, {"f": False}, debug=True), req_t(kf_t, {"f": False}, debug=False)])
@@ -942,6 +1033,36 @@ def main():
                 bdirect.append((i, rel, mm))
     chk.cov["block_leg"] = {"programs": len(bprogs), "violations": len(bdirect),
                             "sample": breqs[0]["tpl"][:400] if breqs else None}
+    # ---------------- leg 2d: the same programs with one loop made recursive and re-entered (engine only) -------
+    rprogs = []
+    for body, ctx in progs[:(min(len(progs), 60000) if chk.thorough else min(len(progs), 2500))]:
+        rb = recursion_mutation(body, chk.rng)
+        if rb is not None:
+            rprogs.append((rb, ctx))
+    rreqs = [req_t(proggen.body_src(b), ctx) for b, ctx in rprogs]
+    rdirect = []
+    for rel in (False, True):
+        rres = run_c18(rreqs, release=rel)
+        n_eval += len(rres)
+        for i, r in enumerate(rres):
+            mm = missing_of(r)
+            if mm is None:
+                if not rel:
+                    hist["recursive_program_rejected"] += 1
+                continue
+            if not rel:
+                hist["recursive_program_render_" + ("ok" if "ok" in r["render"] else "err")] += 1
+                if r["asked"]:
+                    nontriv.add(rreqs[i]["tpl"] + json.dumps(rprogs[i][1], sort_keys=True))
+            if mm[0] or mm[1]:
+                rdirect.append((i, rel, mm))
+    chk.cov["recursive_loop_leg"] = {"programs": len(rprogs), "violations": len(rdirect), "sample": rreqs[0]["tpl"][:400] if rreqs else None}
+    # ---------------- known finding: debug() dumps the whole context ------------------------------------------------
+    dres = run_c18([req_t("{{ debug() }}", {"secret_key": 1, "other": 2})])[0]
+    n_eval += 1
+    dm_ = missing_of(dres)
+    dbgfn_seen = bool(dm_ and set(dm_[0]) == {"other", "secret_key"})
+    kentry2 = chk.match_known(lambda k: k["id"] == "debug-function-dumps-context")
     small = sorted(range(len(cases)), key=lambda i: len(cases[i]))[:10]
     kern = kernel_eval("asks", [cases[i] for i in small], "k_C18", imports="Common.Base C18.Runner")
     kern_ok = kern is not None and all(kern[j] == model[small[j]] for j in range(len(small)))
@@ -1003,6 +1124,30 @@ def main():
         seenh.add(key)
         chk.violation("undeclared_variables of a stored template after reconfiguring the environment: " + what,
                       dict(det, history=rq["history"], context=rq["ctx"], syntaxes=rq["syntaxes"], profile="release" if rel else "debug"))
+    seenr = set()
+    for i, rel, mm in rdirect[:40]:
+        if len(seenr) >= 4:
+            break
+        body, ctx = rprogs[i]
+        def stillr(b):
+            r = run_c18([req_t(proggen.body_src(b), ctx)], release=rel)[0]
+            m2 = missing_of(r)
+            return bool(m2 and (m2[0] or m2[1]))
+        sb = proggen.shrink(body, stillr, budget=150)
+        src = proggen.body_src(sb)
+        if src in seenr:
+            continue
+        seenr.add(src)
+        r = run_c18([req_t(src, ctx)], release=rel)[0]
+        m2 = missing_of(r)
+        chk.violation("undeclared_variables omits a variable the render reads (generated program with a re-entered recursive loop)",
+                      {"template": src, "context": ctx, "asked": r["asked"], "reported": r["flat"], "reported_nested": r["nested"],
+                       "missing": m2[0], "missing_nested": m2[1], "profile": "release" if rel else "debug"})
+    if dbgfn_seen:
+        if kentry2 is not None:
+            chk.known_finding(kentry2["id"], kentry2["what"])
+        else:
+            chk.violation("debug() asks the context for every key it enumerates", {"template": "{{ debug() }}", "context": {"secret_key": 1, "other": 2}})
     seenb = set()
     for i, rel, mm in bdirect[:40]:
         if len(seenb) >= 4:
